@@ -1261,7 +1261,9 @@ func runByzCase(r *mon.Run, cc c11Case) {
 				}
 				var cs []string
 				for c := range cls {
-					cs = append(cs, c)
+					if c != "subnet-strikes" || len(cls) == 1 {
+						cs = append(cs, c)
+					}
 				}
 				sortStrings(cs)
 				sig = "stall:honest-peer-banned:" + strings.Join(cs, "+")
